@@ -1,8 +1,12 @@
 import McpModel.Base.Proto
-import McpModel.ClientStream.Model
+import McpModel.ClientStream.Monitor
+import McpModel.ClientStream.ScnOK
 /-!
 Driver for E6 (C09).  Replays the harness's records on the model (`ClientStream.run`, one `step` per
-HTTP exchange) and evaluates the C09 monitor on the IMPLEMENTATION's observations.
+HTTP exchange) and evaluates the C09 monitor on the IMPLEMENTATION's observations.  The monitor itself
+is typed and lives in `Monitor.lean` (`monStep`; proofs about it: `Bridge.lean`, `Sound.lean`); this
+file is the string layer: the token parser, the clause texts and the rendering of the model's
+observations.
 
 Records of one case (see go/harness/mcp/zz_verif_clientstream_test.go):
   reset
@@ -11,11 +15,6 @@ Records of one case (see go/harness/mcp/zz_verif_clientstream_test.go):
   delivered atret=<n>                                                                            obs <labels|->
   end                                                                                            obs result:R | ok | err:<kind> | hang
   leak                                                                                           obs none | leak
-
-The monitor is independent of the scanner/loop model: its ground truth is the log (the items the
-faithful scripted server owns), the byte length of each item on the wire, and for every exchange
-where the served body started (`from`) and how many bytes of it were served (`cut`).  An item was
-*completely received* iff all its bytes (including the terminating blank line) were served.
 -/
 namespace ClientStream
 open Proto
@@ -29,14 +28,11 @@ def kv (toks : List String) (k : String) : Option String :=
 
 def hexField (s : String) : Option Bytes := if s = "" then some [] else hexToBytes s
 
-structure LItem where
-  raw : Bool
-  ev : Event
-  label : String
-  bytes : Bytes        -- on the wire (model's `writeEvent`, or the raw bytes)
-deriving Repr
+/-- the labels of the harness: `n<k>` a notification, `r` the call's response, `-` no message -/
+def strLabels : Labels String :=
+  { isNotif := fun l => l.startsWith "n", isReply := fun l => l == "r", isNone := fun l => l == "-" }
 
-def parseItem (s : String) : Option LItem :=
+def parseItem (s : String) : Option (LItem String) :=
   match s.splitOn "." with
   | [k, n, i, r, d, lbl] => do
     let n ← hexField n; let i ← hexField i; let r ← hexField r; let d ← hexField d
@@ -52,12 +48,6 @@ def parseTerm : String → Option Term
   | "hang" => some .open
   | _ => none
 
-inductive AKind where
-  | terr
-  | st (code : Nat)
-  | ok (cut : Nat) (t : Term)
-deriving Repr
-
 def parseAttempt (s : String) : Option AKind :=
   let s := if s.endsWith "*" then String.ofList (s.toList.dropLast) else s
   if s = "terr" then some .terr
@@ -66,212 +56,92 @@ def parseAttempt (s : String) : Option AKind :=
     | ["ok", c, t] => do let c ← c.toNat?; let t ← parseTerm t; some (.ok c t)
     | _ => none
 
-/-! ### state -/
+/-- the implementation's observation of an `x` record: the Last-Event-ID header it sent -/
+def parseHdr (impl : String) : Option Bytes :=
+  if impl = "lei=-" then none else some ((hexToBytes (dropS impl 5)).getD [])
 
-structure Exch where
-  kind : AKind
-  from_ : Option Nat      -- index of the first log item of the served body (ok only)
-  complete : List Nat     -- log indices completely received in this exchange
-  tEnd : Nat              -- µs: when the exchange was over for the client
-deriving Repr
+/-- the implementation's observation of the `end` record -/
+def parseEnd (impl : String) : EndObs :=
+  if impl.startsWith "hang" then .hang
+  else if impl = "err:decode" then .decode
+  else if impl = "err:malformed" then .malformed
+  else if impl.startsWith "result:" then .result (impl = "result:R")
+  else if impl = "ok" then .ok
+  else if impl = "err:synthetic" then .synthetic
+  else if impl = "err:exceeded" then .exceeded
+  else if impl = "err:reconnect" then .reconnect
+  else if impl = "err:session-missing" then .sessionMissing
+  else if impl.startsWith "err:st" then .st (dropS impl 6).toNat?
+  else .other
 
-structure DState where
-  sa : Bool := false
-  mrField : Int := 0
-  items : List LItem := []
-  ready : Bool := false
-  run : Option (Run String) := none
-  exch : List Exch := []
-  -- what the implementation reported (for the `end` clauses)
-  deliveredImpl : List String := []
-  /-- some reconnect went out without Last-Event-ID although a cursor existed (F18) -/
-  cursorLost : Bool := false
-  /-- some reconnect carried a Last-Event-ID other than the id of the last completely received event -/
-  wrongCursor : Bool := false
-
-def DState.mr (d : DState) : Nat := Generated.ClientStream.maxRetriesOf d.mrField
-
-def DState.cfg (d : DState) : Cfg String :=
-  { decode := fun bs => (d.items.find? (fun it => !it.raw && it.label != "-" && it.ev.data == bs)).map (·.label),
-    isReply := fun m => m == "r",
-    forCall := !d.sa,
-    maxRetries := d.mr }
-
-def bodyFrom (items : List LItem) (from_ : Nat) : Bytes := ((items.drop from_).map (·.bytes)).flatten
-
-/-- ground truth: indices (starting at `i`) of the items whose bytes all lie within the first `cut` bytes -/
-def completeIdx : List LItem → Nat → Nat → List Nat
-  | [], _, _ => []
-  | it :: rest, i, cut => if it.bytes.length ≤ cut then i :: completeIdx rest (i + 1) (cut - it.bytes.length) else []
+/-! ### rendering -/
 
 def showHdr (h : Bytes) : String := if h = [] then "lei=-" else "lei=x" ++ bytesToHex h
 
-def failName : Fail → String
-  | .decode => "decode"
-  | .malformed => "malformed"
-  | .exceeded => "exceeded"
-  | .connect => "reconnect"
-  | .rejected c => s!"st{c}"
-  | .sessionGone => "session-missing"
-  | .status c => s!"st{c}"
-
-/-! ### ground truth derived from the exchanges -/
-
-def DState.got (d : DState) : List Nat := d.exch.flatMap (·.complete)
-
-def DState.itemAt (d : DState) (i : Nat) : Option LItem := d.items[i]?
-
-def DState.hasId (d : DState) (i : Nat) : Bool :=
-  match d.itemAt i with
-  | some it => !it.raw && it.ev.id != []
-  | none => false
-
-/-- the id of the last event received completely (in arrival order), `[]` if none had an id -/
-def DState.cursor (d : DState) : Bytes :=
-  match (d.got.filter d.hasId).getLast? with
-  | some i => (d.itemAt i).map (·.ev.id) |>.getD []
-  | none => []
-
-def Exch.isOk (e : Exch) : Bool := match e.kind with | .ok _ _ => true | _ => false
-def Exch.isTerr (e : Exch) : Bool := match e.kind with | .terr => true | _ => false
-
-/-- number of consecutive most recent bodies that brought no complete event with an id
-(transport errors in between do not count and do not reset) -/
-def fruitless (d : DState) : Nat :=
-  let rec go : List Exch → Nat
-    | [] => 0
-    | e :: rest =>
-      if e.isTerr then go rest
-      else if e.isOk && !(e.complete.any d.hasId) then go rest + 1
-      else 0
-  go d.exch.reverse
-
-/-- number of consecutive most recent transport errors -/
-def trailingTerr (d : DState) : Nat := (d.exch.reverse.takeWhile (·.isTerr)).length
-
-/-- the retry hint a correct client holds after the last body: the last parsable `retry:` among
-the events it received completely in that body -/
-def lastHint (d : DState) : Int :=
-  match (d.exch.filter (·.isOk)).getLast? with
-  | none => 0
-  | some e =>
-    e.complete.foldl (fun h i =>
-      match d.itemAt i with
-      | some it => if it.raw || it.ev.retry == [] then h else (parseInt64 it.ev.retry).getD h
-      | none => h) 0
-
-def labelsOf (d : DState) (idx : List Nat) : List String :=
-  idx.filterMap (fun i => (d.itemAt i).bind (fun it => if it.label.startsWith "n" then some it.label else none))
-
-def isSublistInOrder : List String → List String → Bool
-  | [], _ => true
-  | _ :: _, [] => false
-  | a :: as, b :: bs => if a == b then isSublistInOrder as bs else isSublistInOrder (a :: as) bs
-
-/-! ### the monitor -/
-
-/-- clauses for an `x k` record (k ≥ 1): the implementation made another HTTP attempt on the stream -/
-def monitorAttempt (d : DState) (implHdr : String) (tStart : Nat) : Option String :=
-  let cur := d.cursor
-  let lastEnd := (d.exch.getLast?.map (·.tEnd)).getD 0
-  let delay := (tStart - lastEnd) * 1000     -- ns
-  let attempt := trailingTerr d + 1
-  let (lo, hi) := delayWindow (if attempt = 1 then lastHint d else 0) attempt
-  if implHdr != showHdr cur then
-    if implHdr = "lei=-" then
-      some "C09: F18 last_id_is_last_complete: reconnect without Last-Event-ID although an event with an id had been received completely (the resume cursor was lost)"
-    else
-      let h := (hexToBytes (dropS implHdr 5)).getD []
-      match d.items.findIdx? (fun it => !it.raw && it.ev.id == h) with
-      | none => some "C09: F5 last_id_is_last_complete: Last-Event-ID is not the id of any event of the stream (an id cut by the end of the body was recorded)"
-      | some j =>
-        if d.got.contains j then
-          some "C09: last_id_is_last_complete: Last-Event-ID names a completely received event, but not the last one"
-        else
-          some "C09: F5 last_id_is_last_complete: Last-Event-ID names an event that was not received completely (its data or its terminating blank line never arrived)"
-  else if !d.sa && cur = [] then
-    some "C09: unresumable_fails_call: a reconnect was attempted for a call stream although no event id had been received completely"
-  else if d.exch.any (fun e => match e.kind with | .st _ => true | _ => false) then
-    some "C09: a reconnect was attempted after a response whose status fails the connection"
-  else if fruitless d > d.mr then
-    some "C09: bounded_fruitless_retries: another reconnect after more than maxRetries bodies without progress"
-  else if trailingTerr d ≥ d.mr then
-    some "C09: bounded_fruitless_retries: connectSSE made more than maxRetries attempts"
-  else if delay + 1000 < lo ∨ delay ≥ hi + 1000 then
-    some s!"C09: reconnect delay {delay}ns outside the schedule [{lo},{hi}) (attempt {attempt}, hint {lastHint d}ms): a retry hint of an incomplete event was used, or the back-off is off"
-  else none
-
-def dedupAdj : List String → List String
-  | a :: b :: rest => if a == b then dedupAdj (b :: rest) else a :: dedupAdj (b :: rest)
-  | l => l
-
-def monitorDelivered (d : DState) (impl : List String) : Option String :=
-  let all := labelsOf d (List.range d.items.length)
-  let must := labelsOf d d.got          -- what was received completely, in arrival order
-  if impl.any (fun l => !all.contains l) then
-    some "C09: no_truncated_message: a message that is not one of the server's messages reached the session"
-  else if !isSublistInOrder impl all then
-    some "C09: delivered_exactly_once_in_order: a message was delivered twice or out of order"
-  else if impl.any (fun l => !must.contains l) then
-    some "C09: F5 no_truncated_message: a message reached the session although its event was not received completely"
-  else if must.any (fun l => !impl.contains l) then
-    some "C09: delivered_exactly_once_in_order: a completely received message never reached the session"
-  else if impl != all.take impl.length then
-    -- a gap in the server's sequence: the scripted server skipped what the client's resume request told it to skip
-    if d.cursorLost then
-      some "C09: F18 delivered_exactly_once_in_order: a server message was lost: the stream was resumed without Last-Event-ID after the resume cursor had been lost"
-    else if d.wrongCursor then
-      some "C09: F5 delivered_exactly_once_in_order: a server message was lost: the stream was resumed from an event that had not been received completely"
-    else none   -- no event id had ever been received: nothing to resume from (standalone stream)
-  else none
-
-def monitorEnd (d : DState) (impl : String) : Option String :=
-  let replyIdx := d.items.findIdx? (fun it => it.label == "r")
-  let gotReply := match replyIdx with | some i => d.got.contains i | none => false
-  let last := d.exch.getLast?
-  let lastIsStatus (c : Nat) : Bool := match last with | some e => (match e.kind with | .st c' => c == c' | _ => false) | none => false
-  if impl.startsWith "hang" then
-    some "C09: the pending call hangs: neither the server's response nor an error"
-  else if impl = "err:decode" then
-    some "C09: F5 no_truncated_message: an event cut by the end of the body was surfaced to the decoder (connection failed: failed to decode event)"
-  else if impl = "err:malformed" then
-    some "C09: F5 process_ignores_unterminated: a line cut by the end of the body was treated as corruption (connection failed: malformed line)"
-  else if impl.startsWith "result:" then
-    if d.sa then some "C09: unexpected result for the probe"
-    else if impl != "result:R" then some "C09: the call completed with something that is not the server's response"
-    else if !gotReply then some "C09: F5 no_truncated_message: the call completed with a response event that was not received completely (its terminating blank line never arrived)"
-    else none
-  else if impl = "ok" then
-    if d.sa then none else some "C09: unexpected probe outcome for a call scenario"
-  else if gotReply then
-    some "C09: the server's response was received completely but the call did not complete with it"
-  else if impl = "err:synthetic" then
-    if d.sa then some "C09: synthetic error without a pending call"
-    else if d.cursor != [] then
-      some "C09: F18 unresumable_fails_call: the call was failed as unresumable although an event id had been received completely and the retry budget was not exhausted"
-    else none
-  else if impl = "err:exceeded" then
-    if fruitless d > d.mr then none
-    else some "C09: bounded_fruitless_retries: 'exceeded retries without progress' although fewer than maxRetries+1 bodies were fruitless"
-  else if impl = "err:reconnect" then
-    if d.mr = 0 ∨ trailingTerr d ≥ d.mr then none
-    else some "C09: 'failed to reconnect' although connectSSE had attempts left"
-  else if impl = "err:session-missing" then
-    if lastIsStatus Generated.ClientStream.sessionGoneStatus then none else some "C09: session-missing error without a 404"
-  else if impl.startsWith "err:st" then
-    match (dropS impl 6).toNat? with
-    | some c => if lastIsStatus c then none else some "C09: status error that no exchange returned"
-    | none => some "C09: unclassified error"
-  else some "C09: the pending call ended with an unexpected error"
-
-/-! ### the engine -/
+/-- the `end` observation as the harness prints it -/
+def showEnd : EndObs → String
+  | .hang => "hang"
+  | .decode => "err:decode"
+  | .malformed => "err:malformed"
+  | .result true => "result:R"
+  | .result false => "result:?"
+  | .ok => "ok"
+  | .synthetic => "err:synthetic"
+  | .exceeded => "err:exceeded"
+  | .reconnect => "err:reconnect"
+  | .sessionMissing => "err:session-missing"
+  | .st (some c) => s!"err:st{c}"
+  | .st none => "err:st?"
+  | .other => "err:other"
 
 def endName (sa : Bool) : Phase → String
-  | .ended .replied => "result:R"
-  | .ended .synthetic => "err:synthetic"
-  | .ended (.failed f) => "err:" ++ failName f
-  | .ended .streaming => if sa then "ok" else "hang"
+  | .ended e => showEnd (endObsOf sa e)
   | .reconnecting .. => "pending"
+
+/-- the clause texts -/
+def Clause.text : Clause → String
+  | .f18NoHeader => "C09: F18 last_id_is_last_complete: reconnect without Last-Event-ID although an event with an id had been received completely (the resume cursor was lost)"
+  | .f5UnknownId => "C09: F5 last_id_is_last_complete: Last-Event-ID is not the id of any event of the stream (an id cut by the end of the body was recorded)"
+  | .notLast => "C09: last_id_is_last_complete: Last-Event-ID names a completely received event, but not the last one"
+  | .f5IncompleteId => "C09: F5 last_id_is_last_complete: Last-Event-ID names an event that was not received completely (its data or its terminating blank line never arrived)"
+  | .unresumableReconnect => "C09: unresumable_fails_call: a reconnect was attempted for a call stream although no event id had been received completely"
+  | .afterStatus => "C09: a reconnect was attempted after a response whose status fails the connection"
+  | .fruitlessExceeded => "C09: bounded_fruitless_retries: another reconnect after more than maxRetries bodies without progress"
+  | .connectExceeded => "C09: bounded_fruitless_retries: connectSSE made more than maxRetries attempts"
+  | .delay dl lo hi attempt hint => s!"C09: reconnect delay {dl}ns outside the schedule [{lo},{hi}) (attempt {attempt}, hint {hint}ms): a retry hint of an incomplete event was used, or the back-off is off"
+  | .foreign => "C09: no_truncated_message: a message that is not one of the server's messages reached the session"
+  | .dupOrOrder => "C09: delivered_exactly_once_in_order: a message was delivered twice or out of order"
+  | .f5Truncated => "C09: F5 no_truncated_message: a message reached the session although its event was not received completely"
+  | .missing => "C09: delivered_exactly_once_in_order: a completely received message never reached the session"
+  | .f18Lost => "C09: F18 delivered_exactly_once_in_order: a server message was lost: the stream was resumed without Last-Event-ID after the resume cursor had been lost"
+  | .f5Lost => "C09: F5 delivered_exactly_once_in_order: a server message was lost: the stream was resumed from an event that had not been received completely"
+  | .hang => "C09: the pending call hangs: neither the server's response nor an error"
+  | .f5Decode => "C09: F5 no_truncated_message: an event cut by the end of the body was surfaced to the decoder (connection failed: failed to decode event)"
+  | .f5Malformed => "C09: F5 process_ignores_unterminated: a line cut by the end of the body was treated as corruption (connection failed: malformed line)"
+  | .probeResult => "C09: unexpected result for the probe"
+  | .notServerResponse => "C09: the call completed with something that is not the server's response"
+  | .f5ResponseIncomplete => "C09: F5 no_truncated_message: the call completed with a response event that was not received completely (its terminating blank line never arrived)"
+  | .probeOutcomeForCall => "C09: unexpected probe outcome for a call scenario"
+  | .replyNotCompleted => "C09: the server's response was received completely but the call did not complete with it"
+  | .syntheticNoCall => "C09: synthetic error without a pending call"
+  | .f18Synthetic => "C09: F18 unresumable_fails_call: the call was failed as unresumable although an event id had been received completely and the retry budget was not exhausted"
+  | .exceededEarly => "C09: bounded_fruitless_retries: 'exceeded retries without progress' although fewer than maxRetries+1 bodies were fruitless"
+  | .reconnectEarly => "C09: 'failed to reconnect' although connectSSE had attempts left"
+  | .sessionMissingNo404 => "C09: session-missing error without a 404"
+  | .statusNotReturned => "C09: status error that no exchange returned"
+  | .unclassified => "C09: unclassified error"
+  | .unexpectedError => "C09: the pending call ended with an unexpected error"
+  | .leak => "C09: goroutines of the client remain blocked for ever after Close (the bubble cannot exit)"
+
+/-! ### state -/
+
+structure DState where
+  scn : Scn String := { lab := strLabels }
+  ready : Bool := false
+  run : Option (Run String) := none
+  mon : Mon := {}
+
+/-! ### the engine -/
 
 def engine : Engine DState where
   init := {}
@@ -286,7 +156,10 @@ def engine : Engine DState where
         let full ← (kv rest "full").bind (fun s => hexToBytes (dropS s 1))
         if kind != "post" && kind != "sa" then none
         if bodyFrom items 0 != full then none
-        some { sa := kind == "sa", mrField := mr, items := items, ready := true }
+        let scn : Scn String := { lab := strLabels, sa := kind == "sa", mr := Generated.ClientStream.maxRetriesOf mr, items := items }
+        -- the scenario is one of a faithful server: the hypothesis of `monitor_accepts_model`
+        if !decide (ScnOK scn) then none
+        some { scn := scn, ready := true }
       match r with
       | some d' => (d', { model := "ok" })
       | none => ({}, { model := "bad-scn" })
@@ -298,26 +171,16 @@ def engine : Engine DState where
         let tS ← (kv rest "t").bind String.toNat?
         let tE ← (kv rest "e").bind String.toNat?
         let fr := (kv rest "from").bind String.toNat?
+        let xr : XRec := { k := k, kind := a, from_ := fr, tStart := tS, tEnd := tE, hdr := parseHdr impl }
         -- the served body, as a function of nothing (the harness tells where the faithful server started)
-        let body : Option (Nat × Nat × Term) := match a, fr with
-          | .ok c t, some f => some (f, c, t)
-          | _, _ => none
-        let scanOf : Option ScanOut := body.map (fun (f, c, t) => scanBytes ((bodyFrom d.items f).take c) t)
-        let complete : List Nat := match body with
-          | some (f, c, _) => completeIdx (d.items.drop f) f c
-          | none => []
-        -- the scripted server refuses a Last-Event-ID it never issued with 400
-        let aEff : AKind := match a, fr with
-          | .ok _ _, none => .st 400
-          | _, _ => a
-        let ex : Exch := { kind := aEff, from_ := fr, complete := complete, tEnd := tE }
+        let scanOf : Option ScanOut := scanOfX d.scn xr
+        let (mon', viol) := monStep d.scn d.mon (.x xr)
         if k = 0 then
           -- the first body of the stream
           let so ← scanOf
-          let run := start d.cfg so
-          some ({ d with run := some run, exch := [ex] }, { model := "lei=-" })
+          let run := start d.scn.cfg so
+          some ({ d with run := some run, mon := mon' }, { model := "lei=-" })
         else
-          let viol := monitorAttempt d impl tS
           match d.run with
           | none => none
           | some run =>
@@ -326,19 +189,10 @@ def engine : Engine DState where
               | .reconnecting _ _ lastID hint attempt =>
                 -- the model's retry hint / attempt number must give the delay window the monitor derived
                 -- from the ground truth (this is what ties `noteEvent`/`parseInt64` to the measured delays)
-                let mAttempt := trailingTerr d + 1
-                let agree := delayWindow hint attempt == delayWindow (if mAttempt = 1 then lastHint d else 0) mAttempt
-                let att : Attempt := match a with
-                  | .terr => .terr
-                  | .st c => .resp c (fun _ => ⟨[], .clean⟩)
-                  | .ok _ _ =>
-                    match scanOf with
-                    | some so => .resp 200 (fun _ => so)
-                    | none => .resp 400 (fun _ => ⟨[], .clean⟩)    -- the scripted server refuses an unknown Last-Event-ID
-                (showHdr lastID ++ (if agree then "" else s!" model-delay-window({hint},{attempt})"), step d.cfg run att)
-            let lost := d.cursorLost || (impl == "lei=-" && d.cursor != [])
-            let wrong := d.wrongCursor || (impl != "lei=-" && impl != showHdr d.cursor)
-            some ({ d with run := some run', exch := d.exch ++ [ex], cursorLost := lost, wrongCursor := wrong }, { model := model, violated := viol })
+                let mAttempt := trailingTerr d.mon.exch + 1
+                let agree := delayWindow hint attempt == delayWindow (if mAttempt = 1 then lastHint d.scn d.mon.exch else 0) mAttempt
+                (showHdr lastID ++ (if agree then "" else s!" model-delay-window({hint},{attempt})"), step d.scn.cfg run (attemptOfX d.scn xr))
+            some ({ d with run := some run', mon := mon' }, { model := model, violated := viol.map Clause.text })
       match r with
       | some x => x
       | none => (d, { model := "bad-op" })
@@ -349,14 +203,14 @@ def engine : Engine DState where
           let l := run.msgs.filter (fun m => m.startsWith "n")
           if l = [] then "-" else " ".intercalate l
         | none => "-"
-      ({ d with deliveredImpl := implL }, { model := model, violated := monitorDelivered d implL })
+      (d, { model := model, violated := (monStep d.scn d.mon (.delivered implL)).2.map Clause.text })
     | ["end"] =>
       let model := match d.run with
-        | some run => endName d.sa run.phase
+        | some run => endName d.scn.sa run.phase
         | none => "no-run"
-      (d, { model := model, violated := monitorEnd d impl })
+      (d, { model := model, violated := (monStep d.scn d.mon (.fin (parseEnd impl))).2.map Clause.text })
     | ["leak"] =>
-      (d, { model := "none", violated := if impl = "none" then none else some "C09: goroutines of the client remain blocked for ever after Close (the bubble cannot exit)" })
+      (d, { model := "none", violated := (monStep d.scn d.mon (.leak (impl != "none"))).2.map Clause.text })
     | _ => (d, { model := "bad-op" })
 
 end ClientStream
